@@ -11,7 +11,7 @@
    all data, paths and ids: the stitching layer neither loses, misplaces nor duplicates. *)
 From Coq Require Import String List Bool ZArith.
 From GW Require Import Base.Res Base.GoStr Base.Json Gql.Syntax Gql.Spec Gw.Points Gw.FedCheck
-     Gw.Locate Gw.Plan Proofs.CodecProofs Proofs.PointsProofs Proofs.FindProofs Proofs.PlanProofs Proofs.PlanCount.
+     Gw.Locate Gw.Plan Proofs.CodecProofs Proofs.PointsProofs Proofs.FindProofs Proofs.PlanProofs Proofs.PlanCount Proofs.StitchSound.
 Import ListNotations.
 Open Scope string_scope.
 Open Scope list_scope.
@@ -31,6 +31,28 @@ Theorem C01_plan_holds_every_field_once : forall prios urls ft fuel root sels s,
   plan_operation prios urls ft fuel root sels = Ok s -> scount s = fcounts sels.
 Proof. exact plan_conserves_fields. Qed.
 Print Assumptions C01_plan_holds_every_field_once.
+
+(* Stitching is sound for the reference semantics.  For every data graph with atomic scalars, every
+   object and every two selection sets in collected form (plain fields, each response key once per
+   set -- what graphql.ApplyFragments leaves) whose common keys select the same field with the same
+   arguments: merging the answer to the second into the answer to the first with
+   executorMergeObject gives the answer to both together.  This is why one selection may be sent
+   in parts to different services and stitched. *)
+Theorem C01_stitching_is_sound : forall w frags vars,
+  (forall o rt c, atomic_f (resolve w vars o rt c)) ->
+  forall fuel o rt l1 l2, good l1 -> good l2 -> compat l1 l2 ->
+  exec fuel w frags vars o rt (l1 ++ l2) =
+  merge_value (Some (exec fuel w frags vars o rt l1)) (exec fuel w frags vars o rt l2).
+Proof. intros w frags vars Hw fuel. exact (stitch_sound w frags vars Hw fuel). Qed.
+Print Assumptions C01_stitching_is_sound.
+
+Theorem C01_stitching_at_the_root : forall w frags vars,
+  (forall o rt c, atomic_f (resolve w vars o rt c)) ->
+  forall fuel o rt l1 l2, good l1 -> good l2 -> compat l1 l2 ->
+  insert_object (exec (S fuel) w frags vars o rt l1) [] (exec (S fuel) w frags vars o rt l2) =
+  Ok (exec (S fuel) w frags vars o rt (l1 ++ l2)).
+Proof. intros w frags vars Hw fuel o rt l1 l2. exact (stitch_at_root w frags vars Hw fuel o rt l1 l2). Qed.
+Print Assumptions C01_stitching_at_the_root.
 
 (* Addressing.  A parent object is named by "<key>:<index>#<id>": for every response key (no ':'
    or '#'), every index below 2^63 and EVERY id text -- ids containing ':' '#' spaces or unicode
